@@ -1,3 +1,4 @@
 import MellonDriver.Core
 import MellonDriver.Kernel
 import MellonDriver.Cond
+import MellonDriver.Decomp
